@@ -228,6 +228,7 @@ struct CrashCtx {
   volatile uint64_t seed;
   volatile int runIndex;
   volatile int active;
+  volatile int faultKind, faultK;  // fault attached to the last operation (C09 mode A), 0 if none
   char config[96];
   char profile[48];
 };
